@@ -15,7 +15,7 @@ spec keys (all optional):
 steps:  ["die", pidref, status] ["hang", pidref, ignore] ["beat", pidref] ["sig", NAME, workers, addrchg]
         ["chld"] ["tick", n] ["tail"]         pidref: pid | "last" | "oldest" | "youngest"
 Injection point labels: fork.pre fork.post assign.post untrack.post kill.pre kill.post wait.pre
-        wait.post select.pre select.tick sleep.pre sleep.post lclose.post (+ line.<n> when tracing)
+        wait.post select.pre select.tick sleep.pre sleep.post lclose.post log (+ line.<n> when tracing)
 """
 import os
 import random
@@ -37,6 +37,14 @@ class QuietLog:
         self.records = []
 
     def _rec(self, lvl, msg, *a, **kw):
+        # writing a log record takes time: a signal may be handled in the middle of it.  The standard library's handlers
+        # catch whatever Exception is raised inside emit() (Handler.handleError) - a BaseException passes through
+        k = _CUR.get("kernel")
+        if k is not None and getattr(k, "arb", None) is not None and not k.in_emit:
+            try:
+                k.inject("log")
+            except Exception:      # noqa
+                self.records.append("swallowed: exception raised inside a logging call")
         if len(self.records) < 50:
             try:
                 self.records.append(lvl + ": " + (msg % a if a else str(msg)))
